@@ -280,6 +280,26 @@ def isub (fo : FloatOps) (h o : H1) : R H1 := do
                 under := nsub h.under o.under, over := nsub h.over o.over,
                 inner := nsub h.inner o.inner, stats := Stats.invalid }
 
+/-- the double nearest to 0.01 (`0.01 if percent else 1` in `normalize`) -/
+def centiDouble : Rat := 5764607523034235 / 576460752303423488
+
+/-- `normalize(inplace, percent)` -/
+def normalize (h : H1) (inplace percent : Bool) : R H1 :=
+  if inplace then idiv h (h.total * (if percent then centiDouble else 1))
+  else do
+    let d ← idiv h h.total
+    imul d (if percent then 100 else 1) .pyInt
+
+/-- `__isub__` with another histogram while free arithmetics is enabled: `self += other * (-1)`,
+    negative contents are accepted, statistics become invalid -/
+def isubFree (fo : FloatOps) (h o : H1) : R H1 := do
+  let o' := o.coerce .i64
+  let neg : H1 := { o' with freq := o'.freq.map (· * (-1)), under := nscale o'.under (-1),
+                            over := nscale o'.over (-1), inner := nscale o'.inner (-1),
+                            stats := o'.stats.scale (-1) }
+  let r ← iadd fo h neg
+  pure { r with stats := Stats.invalid }
+
 /-- bin map of `merge_bins(amount)` -/
 def amountMap (n amount : Nat) : List Nat := (List.range n).map (· / amount)
 
